@@ -95,6 +95,9 @@ type FnCtx struct {
 	errInit map[string]bool
 	ctVals map[string]Val
 	canonDone map[string]bool
+	ifaces map[string]types.Type
+	typeObjs map[string]types.Type
+	unboundLoops []string
 	constFieldsUsed map[string]bool
 	callRes map[string]Val
 	callGuard map[string]*smt.Term
@@ -171,6 +174,8 @@ func (fc *FnCtx) reset(dry bool) {
 	fc.errInit = map[string]bool{}
 	fc.ctVals = map[string]Val{}
 	fc.canonDone = map[string]bool{}
+	fc.ifaces = map[string]types.Type{}
+	fc.typeObjs = map[string]types.Type{}
 	fc.constFieldsUsed = map[string]bool{}
 	fc.callRes = map[string]Val{}
 	fc.callGuard = map[string]*smt.Term{}
@@ -263,6 +268,30 @@ func (fc *FnCtx) findLoops() {
 		}
 		fc.loopList = append(fc.loopList, li)
 	}
+	fc.unboundLoops = nil
+	if fc.C != nil {
+		for _, name := range smt.SortedKeys(fc.C.NamedLoops) {
+			bound := false
+			for _, li := range fc.loopList {
+				for _, in := range li.header.Instrs {
+					phi, ok := in.(*ssa.Phi)
+					if !ok {
+						break
+					}
+					if phi.Comment == name && li.ls == nil {
+						li.ls = fc.C.NamedLoops[name]
+						bound = true
+					}
+				}
+				if bound {
+					break
+				}
+			}
+			if !bound {
+				fc.unboundLoops = append(fc.unboundLoops, name)
+			}
+		}
+	}
 }
 
 func (fc *FnCtx) isBackEdge(from, to *ssa.BasicBlock) bool { return to.Dominates(from) }
@@ -314,10 +343,10 @@ func (fc *FnCtx) getHeap(st *State, key string, valSort smt.Sort) *smt.Term {
 		return t
 	}
 	t := fc.S.Fresh("H0_"+key, as)
-	if fc.guardKey(key) == key {
+	if fc.guardKey(key) == key && fc.guardKey(key) != "" {
 		// objects allocated later are owned by nobody at entry
 		r := smt.Const("r!g", smt.Int)
-		fc.S.Assert(smt.Forall([]*smt.Term{r}, smt.Implies(smt.Lt(r, smt.IntLit(0)), smt.Not(smt.Select(t, r))), []*smt.Term{smt.Select(t, r)}), "")
+		fc.S.Assert(smt.Forall([]*smt.Term{r}, smt.Implies(smt.Le(r, smt.IntLit(0)), smt.Not(smt.Select(t, r))), []*smt.Term{smt.Select(t, r)}), "")
 	}
 	fc.entry.H[key] = t
 	st.H[key] = t
@@ -546,6 +575,12 @@ func (fc *FnCtx) typeFacts(t *smt.Term, ty types.Type) {
 			smt.Implies(smt.Eq(smt.SlArr(t), smt.IntLit(0)), smt.And(smt.Eq(smt.SlCap(t), smt.IntLit(0)), smt.Eq(smt.SlOff(t), smt.IntLit(0))))), "")
 	case KRef, KPtr:
 		fc.S.Assert(smt.Ge(t, smt.IntLit(0)), "")
+		if _, isIface := ty.Underlying().(*types.Interface); isIface && ty.Underlying().(*types.Interface).NumMethods() > 0 {
+			if _, named := ty.(*types.Named); named {
+				fn := fc.implementsFn(ty)
+				fc.S.Assert(smt.Implies(smt.Neq(t, smt.IntLit(0)), smt.App(fn, smt.Bool, fc.dtype(t))), "")
+			}
+		}
 	case KStrList:
 		fc.S.Assert(smt.Le(smt.LLen(t), maxLen), "")
 	case KStrArr:
@@ -893,6 +928,7 @@ func (fc *FnCtx) run() {
 			fc.assumeLemma(ln)
 		}
 	}
+	fc.emitGlobalAxioms(st0)
 	fc.splitCases = nil
 	if fc.C != nil && len(fc.C.Split) > 0 {
 		var all []*smt.Term
@@ -1090,10 +1126,10 @@ func (fc *FnCtx) val(v ssa.Value) Val {
 		elem := c.Type().(*types.Pointer).Elem()
 		if kindOf(elem) == KStruct {
 			// struct-typed global: its reference is a constant
-			name := "gref!" + smt.Ident(key)
+			name := "gref_" + smt.Ident(key)
 			if !fc.S.Declared(name) {
-				t := fc.S.Fresh(name, smt.Int)
-				fc.S.Assert(smt.Gt(t, smt.IntLit(0)), "")
+				fc.S.DeclareFun(name, nil, smt.Int)
+				fc.S.Assert(smt.Gt(smt.Const(name, smt.Int), smt.IntLit(0)), "")
 			}
 			return fc.fromTerm(smt.Const(name, smt.Int), c.Type())
 		}
@@ -1171,4 +1207,26 @@ func (fc *FnCtx) hintsIn(t *smt.Term) []*smt.Term {
 	}
 	walk(t, map[string]bool{})
 	return out
+}
+
+// emitGlobalAxioms asserts the axioms that mention no specification function
+// (facts about sentinels and the like).
+func (fc *FnCtx) emitGlobalAxioms(st *State) {
+	for _, ax := range fc.P.Spec.Axioms {
+		usesFn := false
+		walk(ax.E, func(x spec.Expr) {
+			if c, ok := x.(*spec.Call); ok {
+				if _, isSF := fc.P.SpecFn[c.Fun]; isSF {
+					usesFn = true
+				}
+			}
+		})
+		if usesFn || fc.axiomDone[ax.Name] {
+			continue
+		}
+		fc.axiomDone[ax.Name] = true
+		ec := &evalCtx{fc: fc, vars: map[string]Val{}, cur: st, old: st}
+		fc.S.Assert(ec.boolean(ax.E), "axiom "+ax.Name)
+		fc.Used["axiom "+ax.Name+" ("+shortFile(ax.File)+")"] = true
+	}
 }
